@@ -99,7 +99,7 @@ def run(ctx):
         "real_code": stats, "records_judged_by_tlc": nrec,
     }, **extra)
     assumptions = [
-        "groups contain exactly one SYSCALL record (or none, for the refusal clause); EXECVE and SOCKADDR records carry only the keys the kernel writes; the synthetic key namespace (argc, a<N>, socket_*) is not used elsewhere",
+        "groups contain exactly one SYSCALL record (or none, for the refusal clause); other records may carry any key, also argc and socket_* (collisions with the entries the coalescer makes for EXECVE and SOCKADDR records)",
         "Event.File.Device mirrors the PATH record's rdev (what the pinned golden files define as device)",
         "ResolveIDs uses fresh EntityCaches; ids other than 0/root resolve through the machine's passwd/group files, identically within a run",
     ]
